@@ -57,8 +57,13 @@ func (cache *Cache) evict() {
 }
 
 // cacheKey derives the cache key from the message digest, the claimed signers and the signature bytes.
-func cacheKey(digest hotstuff.Hash, signature hotstuff.QuorumSignature) string {
+//
+// The kind of verification is part of the key as well ('s' for a signature over a single message, 'b' for a
+// batch signature): a batch {id: m} and the single message id|len(m)|m have the same digest, and a signature
+// verified as the one must not be taken for the other.
+func cacheKey(kind byte, digest hotstuff.Hash, signature hotstuff.QuorumSignature) string {
 	var key strings.Builder
+	_ = key.WriteByte(kind)
 	_, _ = key.Write(digest[:])
 	// the kind of signature is part of what was verified: the same bytes under another scheme's type are not
 	_, _ = fmt.Fprintf(&key, "%T|", signature)
@@ -94,7 +99,7 @@ func (cache *Cache) Sign(message []byte) (sig hotstuff.QuorumSignature, err erro
 		return nil, err
 	}
 	hash := sha256.Sum256(message)
-	cache.insert(cacheKey(hash, sig))
+	cache.insert(cacheKey('s', hash, sig))
 	return sig, nil
 }
 
@@ -104,7 +109,7 @@ func (cache *Cache) Verify(signature hotstuff.QuorumSignature, message []byte) e
 		return errNilSignature
 	}
 	hash := sha256.Sum256(message)
-	key := cacheKey(hash, signature)
+	key := cacheKey('s', hash, signature)
 
 	if cache.check(key) {
 		return nil
@@ -135,7 +140,7 @@ func (cache *Cache) BatchVerify(signature hotstuff.QuorumSignature, batch map[ho
 		_, _ = hasher.Write(batch[id])
 	}
 	copy(hash[:], hasher.Sum(nil))
-	key := cacheKey(hash, signature)
+	key := cacheKey('b', hash, signature)
 
 	if cache.check(key) {
 		return nil
